@@ -287,3 +287,9 @@ Definition usage_ok (s : schema) (vds : list var_def) (defs : list ifield) (call
 Definition bound (s : schema) (t : ity) : Prop := alookup (ity_name t) s <> None.
 Definition schema_closed (s : schema) : Prop :=
   forall n fs f, alookup n s = Some (TDInput fs) -> In f fs -> bound s (f_ty f).
+
+(* input fields have input types (what schema validation checks) *)
+Definition schema_inputs (s : schema) : Prop :=
+  forall n fs f, alookup n s = Some (TDInput fs) -> In f fs -> input_ty s (f_ty f).
+(* a type expression that may be used for an argument / variable / input field *)
+Definition usable (s : schema) (t : ity) : Prop := bound s t /\ input_ty s t.
